@@ -70,6 +70,10 @@ import "github.com/quasilyte/go-ruleguard/dsl"
 func c15(m dsl.Matcher) {
 	m.Match(` + "`probe($x)`" + `).Report(` + "`V=$x;W=$$;`" + `).Suggest(` + "`$x`" + `)
 }
+
+func c15comment(m dsl.Matcher) {
+	m.MatchComment(` + "`//c15:(?P<body>\\w*)`" + `).Report(` + "`V=$body;W=$$;`" + `).Suggest(` + "`$body`" + `)
+}
 `
 
 func main() {
@@ -117,6 +121,7 @@ func main() {
 		lit.WriteByte('"')
 		texts = append(texts, lit.String())
 		fmt.Fprintf(&sb, "\tprobe(%s)\n", lit.String())
+		fmt.Fprintf(&sb, "\t//c15:%s\n", strings.Trim(lit.String(), "\""))
 	}
 	sb.WriteString("}\n")
 	t, err := hutil.CheckTarget(*tmp, "target/target.go", []byte(sb.String()))
@@ -133,19 +138,24 @@ func main() {
 	for i := 0; i < 6; i++ {
 		Ls = append(Ls, rng.Intn(*maxN+50))
 	}
-	for _, L := range Ls {
-		reports, pmsg := hutil.Run(e, t, L, "", nil)
-		if pmsg != "" || len(reports) != len(texts) {
-			enc.Encode(engineObs{K: "engine", L: L, Panic: pmsg, NRep: len(reports)})
-			if pmsg != "" {
-				continue
-			}
+	state := ruleguard.NewRunnerState(e)
+	for li, L := range Ls {
+		// every second run reuses one RunnerState, so a truncate length leaking between runs would show
+		var st *ruleguard.RunnerState
+		if li%2 == 1 {
+			st = state
 		}
-		for i, r := range reports {
-			if i >= len(texts) {
-				break
+		reports, pmsg := hutil.Run(e, t, L, "", st)
+		enc.Encode(engineObs{K: "count", L: L, Panic: pmsg, NRep: len(reports), Msg: fmt.Sprint(2 * len(texts))})
+		if pmsg != "" {
+			continue
+		}
+		for _, r := range reports {
+			if r.Group == "c15" {
+				enc.Encode(engineObs{K: "engine", Text: string(t.Src[r.Pos+len("probe(") : r.End-1]), L: L, Msg: r.Message, Sugg: r.Sugg, NRep: len(reports)})
+			} else {
+				enc.Encode(engineObs{K: "comment", Text: string(t.Src[r.Pos+len("//c15:") : r.End]), L: L, Msg: r.Message, Sugg: r.Sugg, NRep: len(reports)})
 			}
-			enc.Encode(engineObs{K: "engine", Text: string(t.Src[r.Pos+len("probe(") : r.End-1]), L: L, Msg: r.Message, Sugg: r.Sugg, NRep: len(reports)})
 		}
 	}
 }
